@@ -305,6 +305,16 @@ def rule_keyword_compare(ctx):
                     ctx.violation("C02.c", mname, qual, n, m.loc(n),
                                   f"`{norm(e)}` is raw user text ({st[1]}) and is compared with {consts!r} without case "
                                   f"normalisation: the lower-case spelling of the keyword takes a different branch than the upper-case one")
+                elif st[0] == "normalised" and "folded" in st[1] and isinstance(op if op is not None else ast.Eq(), (ast.Eq, ast.In)) \
+                        and consts and all(isinstance(c, str) and any(ch.islower() for ch in c) for c in consts) and mname != "checks":
+                    # contradiction: the text was upper-cased by the folding stage (if it is an unquoted identifier), or is a name the parser
+                    # keeps as written (if it is not an identifier at all) — compared for equality with a constant that has lower-case
+                    # letters, the test either never holds for unquoted names or depends on the spelling the user chose
+                    ctx.ob("C02.c", what, False, m.loc(n))
+                    ctx.violation("C02.c", mname, qual, n, m.loc(n),
+                                  f"`{norm(e)}` is the text of a name ({st[1]}) compared with {consts!r}, which has lower-case letters: an unquoted "
+                                  f"identifier has been folded to upper case by then (the test never holds), and a name the parser keeps as written "
+                                  f"(a named-argument keyword such as `input =>`) matches only in that one spelling — `INPUT =>` takes the other branch")
                 elif st[0] == "unknown":
                     ctx.ob("C02.c", what, None, m.loc(n))
                 else:
